@@ -146,8 +146,14 @@ def parseCAs : Blob → Option (List String)
   | .cas ids => if ids.isEmpty then none else some ids
   | _ => none
 
-/-- Config.addCaCertificates: the one CA option fills both pools -/
-def addCaCertificates (o : Opts) (conf : TlsCfg) : Res TlsCfg :=
+/-- the trust anchors of the process's system store.  The harness process (C05 components) is started with a
+    system store holding exactly one CA, "S", which no configuration names (go/harness/c05_pki.go). -/
+def sysAnchors : List String := ["S"]
+
+/-- Config.addCaCertificates with the pool starting from `seed`: the one CA option fills both pools.
+    `x509.NewCertPool()` is the empty seed; a pool obtained elsewhere (x509.SystemCertPool(), a package-level
+    or cached pool, the pool of another configuration object) brings its anchors along. -/
+def addCaCertificatesFrom (seed : List String) (o : Opts) (conf : TlsCfg) : Res TlsCfg :=
   match readSrc o.ca .cafile with
   | .err e => .err e
   | .panic => .panic
@@ -156,7 +162,15 @@ def addCaCertificates (o : Opts) (conf : TlsCfg) : Res TlsCfg :=
     else
       match parseCAs b with
       | none => .err .caparse
-      | some pool => .ok { conf with clientCAs := some pool, rootCAs := some pool }
+      | some cas => .ok { conf with clientCAs := some (seed ++ cas), rootCAs := some (seed ++ cas) }
+
+/-- what the pool holds before the configured CA is appended, from the regenerated shape of
+    addCaCertificates (SA.Gen.caPoolStartsEmpty: a function-local `x509.NewCertPool()` that receives only the PEM
+    of `m.GetCaCertificates()`).  Any other shape is modelled as the system pool. -/
+def poolSeed : List String := if SA.Gen.caPoolStartsEmpty then [] else sysAnchors
+
+/-- Config.addCaCertificates -/
+def addCaCertificates (o : Opts) (conf : TlsCfg) : Res TlsCfg := addCaCertificatesFrom poolSeed o conf
 
 /-- Config.GetTlsConfig (= GetX509KeyPair, then addCaCertificates) -/
 def configGetTlsConfig (o : Opts) : Res TlsCfg :=
@@ -519,6 +533,9 @@ def certTable : List (String × CertAttrs) := [
   ("exp1s", ⟨"A", ["server.test", "localhost", "127.0.0.1", "::1"], true⟩),      -- NotAfter = now - 1 s
   ("notyet", ⟨"A", ["server.test", "localhost", "127.0.0.1", "::1"], true⟩),     -- NotBefore = now + 120 s
   ("fresh", ⟨"A", ["server.test", "localhost", "127.0.0.1", "::1"], false⟩),     -- now - 60 s … now + 120 s
+  -- issued by CA S: the system trust store of the harness process, configured nowhere
+  ("sys", ⟨"S", ["server.test", "localhost", "127.0.0.1", "::1"], false⟩),
+  ("csys", ⟨"S", [], false⟩),
   ("cgood", ⟨"A", [], false⟩),
   ("cforeign", ⟨"B", [], false⟩),
   ("cexpired", ⟨"A", [], true⟩), ("cexp1m", ⟨"A", [], true⟩), ("cexp1s", ⟨"A", [], true⟩),
@@ -539,9 +556,13 @@ def modelledVerifFieldSites : List (String × String × String) := [
   ("internal/util/cert/cert.go", "ServerConfig.GetTlsConfig", "ClientAuth")]                  -- serverGetTlsConfig
 
 def serverCertClasses : List String :=
-  ["good", "nameonly", "wronghost", "untrusted", "expired", "exp1m", "exp1s", "notyet", "fresh"]
+  ["good", "nameonly", "wronghost", "untrusted", "expired", "exp1m", "exp1s", "notyet", "fresh", "sys"]
 def clientCertClasses : List String :=
-  ["none", "good", "foreign", "expired", "exp1m", "exp1s", "notyet", "fresh"]
+  ["none", "good", "foreign", "expired", "exp1m", "exp1s", "notyet", "fresh", "sys"]
+
+/-- the CA option of an `authmatrix` / `tlshist` op: CA A or CA B configured inline, or none -/
+def caTokens : List String := ["A", "-", "B"]
+def caSrcOf (t : String) : Src := if t = "A" ∨ t = "B" then ⟨none, some (.cas [t])⟩ else {}
 
 /-! ### reference oracle for x509.VerifyHostname on the names the harness uses
 
@@ -591,7 +612,8 @@ def refX509 : X509 where
   chains pool c :=
     match pool, certTable.lookup c with
     | some ids, some a => ids.contains a.signer
-    | _, _ => false                                   -- the system roots know none of the harness CAs
+    | none, some a => sysAnchors.contains a.signer    -- nil pool: crypto/tls verifies against the system store
+    | _, none => false
   validNow c := match certTable.lookup c with | some a => !a.expired | none => false
   matchesName n c :=
     match certTable.lookup c, canonName n with
@@ -725,6 +747,11 @@ def bytesToName (bs : List Nat) : Option Name := (String.fromUTF8? ⟨bs.toArray
 def udpStr : UdpStart → String
   | .plain => "plain" | .encrypted => "encrypted" | .errAesKey => "err aeskey"
 
+def leafSrc (id : String) : Opts → Opts := fun o =>
+  { o with cert := ⟨none, some (.cert id)⟩, key := ⟨none, some (.key id .plain)⟩ }
+
+def leafOpts (id : String) (o : Opts) : Opts := leafSrc id o
+
 def handleTlscfg (toks : List String) : String :=
   match toks with
   | "cfg" :: kind :: rest =>
@@ -736,6 +763,31 @@ def handleTlscfg (toks : List String) : String :=
        | "client" => resStr (clientGetTlsConfig o)
        | "server" => resStr (serverGetTlsConfig SA.Gen.serverAuthGuardErrNil o)
        | _ => "bad-op")
+  | ["cfg2", k1, ca1, k2, ca2] =>
+    -- two configuration objects loaded in one process (1, 2, 1 again): each load is a function of ITS OWN options
+    let caOf : String → Option Src
+      | "-" => some {}
+      | "A" => some ⟨none, some (.cas ["A"])⟩
+      | "B" => some ⟨none, some (.cas ["B"])⟩
+      | "AB" => some ⟨none, some (.cas ["A", "B"])⟩
+      | _ => none
+    let load (kind : String) (ca : Src) : Option (Res TlsCfg) :=
+      let o : Opts := leafOpts "good" { ca := ca }
+      match kind with
+      | "config" => some (configGetTlsConfig o)
+      | "client" => some (clientGetTlsConfig o)
+      | "server" => some (serverGetTlsConfig SA.Gen.serverAuthGuardErrNil { o with flag := true })
+      | _ => none
+    let show1 : Res TlsCfg → String
+      | .ok c => "pools root=" ++ poolStr c.rootCAs ++ " cca=" ++ poolStr c.clientCAs
+      | .err e => "err " ++ errStr e
+      | .panic => "PANIC"
+    (match caOf ca1, caOf ca2 with
+     | some s1, some s2 =>
+       (match load k1 s1, load k2 s2 with
+        | some r1, some r2 => show1 r1 ++ " | " ++ show1 r2 ++ " | " ++ show1 r1
+        | _, _ => "bad-op")
+     | _, _ => "bad-op")
   | ["startname", h, _] =>
     (match (fromHex h).bind bytesToName with
      | some n => "name " ++ nameHex (startTlsName SA.Gen.startTlsStripsPort n)
@@ -772,9 +824,6 @@ def parseKind : String → Option (Kind × Bool)     -- Bool: hostname must be "
   | "stdin+tls" => some (.stdioTls, true)
   | _ => none
 
-def leafSrc (id : String) : Opts → Opts := fun o =>
-  { o with cert := ⟨none, some (.cert id)⟩, key := ⟨none, some (.key id .plain)⟩ }
-
 def handleAuthmatrix (toks : List String) : String :=
   match toks with
   | [carrier, hostname, scert, ins, cca, ccert, sreq, sca] =>
@@ -784,13 +833,13 @@ def handleAuthmatrix (toks : List String) : String :=
       let sreq ← parseBit sreq
       if !(serverCertClasses.contains scert) then none
       if !(clientCertClasses.contains ccert) then none
-      if !(["A", "-"].contains cca) || !(["A", "-"].contains sca) then none
+      if !(caTokens.contains cca) || !(caTokens.contains sca) then none
       if noHost != (hostname == "-") then none
       let (hostPart, special) ← decodeHostTok hostname
       if special && noHost then none
       if !special && (carrier == "tcp" || carrier == "tcp+tls" || carrier == "udp" || carrier == "ws" || carrier == "wss") && !(hostname == "localhost" || hostname == "127.0.0.1") then none
       if !special && carrier == "pipe" && hostname.toList.any (fun c => c == ':' || c == '/' || c == '[' || c == ']') then none
-      let caSrc (t : String) : Src := if t = "A" then ⟨none, some (.cas ["A"])⟩ else {}
+      let caSrc := caSrcOf
       let so : Opts := leafSrc scert { ca := caSrc sca, flag := sreq }
       let co0 : Opts := { ca := caSrc cca, flag := ins }
       let co : Opts := if ccert = "none" then co0 else leafSrc ("c" ++ ccert) co0
@@ -809,12 +858,13 @@ def parseAttempt (sreq : Bool) (sca : String) (tok : String) : Option Attempt :=
     if !(["pipe", "tcp", "tcp+tls", "stdin+tls", "wss"].contains carrier) then none
     let (k, noHost) ← parseKind carrier
     if !(("dead" :: "iponly" :: serverCertClasses).contains scert) then none
+    if !(caTokens.contains sca) then none
     if noHost != (hostname == "-") then none
     let (hostPart, special) ← decodeHostTok hostname
     if special && noHost then none
     if !special && (carrier == "tcp" || carrier == "tcp+tls" || carrier == "wss") && !(hostname == "localhost" || hostname == "127.0.0.1") then none
     if !special && carrier == "pipe" && (hostname.isEmpty || hostname.toList.any (fun c => c == ':' || c == '/' || c == '[' || c == ']')) then none
-    let caSrc : Src := if sca = "A" then ⟨none, some (.cas ["A"])⟩ else {}
+    let caSrc : Src := caSrcOf sca
     let up := scert != "dead"
     let so : Opts := leafSrc (if up then scert else "good") { ca := caSrc, flag := sreq }
     let hostport : Name := if noHost then [] else stripUserinfo hostPart ++ ":4443".toList
@@ -837,10 +887,10 @@ def handleTlshist (toks : List String) : String :=
       let ins ← parseBit ins
       let sreq ← parseBit sreq
       if !(clientCertClasses.contains ccert) then none
-      if !(["A", "-"].contains cca) || !(["A", "-"].contains sca) then none
+      if !(caTokens.contains cca) || !(caTokens.contains sca) then none
       if atts.isEmpty || atts.length > 6 then none
       let as ← atts.mapM (parseAttempt sreq sca)
-      let co0 : Opts := { ca := if cca = "A" then ⟨none, some (.cas ["A"])⟩ else {}, flag := ins }
+      let co0 : Opts := { ca := caSrcOf cca, flag := ins }
       let co : Opts := if ccert = "none" then co0 else leafSrc ("c" ++ ccert) co0
       pure (" ".intercalate ((runHist refX509 genFacts SA.Gen.getTlsConfigFreshPerCall co failover as none).map outcomeStr))
     r.getD "bad-op"
